@@ -82,6 +82,9 @@ def run_path(I, st, c, fi, res):
         res.requires_formula = list(st.pc)
     if not st.feasible():
         raise PathEnd("requires infeasible")
+    for cl in c.axioms:
+        if "old(" not in cl.text:
+            st.assume(specs.eval_clause(I, st, cl, env, fi))
     for cl in c.hints:
         g = specs.eval_clause(I, st, cl, env, fi)
         st.oblige("%s.hint[%s]" % (short, cl.label), g, meta={"kind": "hint", "clause": cl.text, "props": c.props})
@@ -99,6 +102,9 @@ def run_path(I, st, c, fi, res):
         where = r.where
     except (BreakExc, ContinueExc):
         raise Unsupported("break/continue outside loop")
+    for cl in c.axioms:
+        # instances of proved axioms (finite sums): valid formulas, assumed before the postconditions are checked
+        st.assume(specs.eval_clause(I, st, cl, env, fi))
     if outcome == "normal" and c.ghost_exit:
         # ghost assignments executed at normal exit (ghost state lives only in contracts)
         import ast as _ast
@@ -200,7 +206,11 @@ def frame_obligations(I, st, c, fi, env, short):
     finally:
         st.in_old = prev
     bykey = {}
+    every = []
     for v, keys in locs:
+        if isinstance(v, calls.Every):
+            every.append(v)
+            continue
         for key, sort in keys:
             bykey.setdefault(key, []).append(v)
     for key in sorted(st.written):
@@ -212,6 +222,11 @@ def frame_obligations(I, st, c, fi, env, short):
             continue
         o = z3.FreshConst(RefS, "fo")
         excl = [z3.Or(v.none, o != v.term) if not z3.is_false(v.none) else o != v.term for v in bykey.get(key, [])]
+        for ev in every:
+            if key == "$len" or key.startswith("$dom") or key.startswith("$val") or key.startswith("$items"):
+                excl.append(z3.Not(ev.covers_content(I, st, o)))
+            else:
+                excl.append(z3.Not(ev.covers_object(st, o)))
         goal = z3.ForAll([o], z3.Implies(z3.And(z3.Select(st.alloc0, o), *excl), z3.Select(cur, o) == z3.Select(old, o)))
         st.oblige("%s.frame[%s]" % (short, key), goal, meta={"kind": "frame", "clause": "only `modifies` locations of heap field %s change" % key,
                                                            "props": c.props}, assume_after=False)
